@@ -1,52 +1,10 @@
 import H2T.Lemmas.DomTotal
+import H2T.DomTree
 
 /-! The pipeline `renderDom` factors into a configuration-independent front end (style sheets, DOM → render tree, which only reads
     the `decorate` switch) and `renderTree`: whole-run relations between configurations proved for render trees transfer to
     the whole pipeline. -/
 namespace H2T
-
-def treeOutcome : Except Err (List RLine) → Outcome
-  | .ok ls => .lines ls
-  | .error .tooNarrow => .narrow
-  | .error (.panic s) => .panic s
-  | .error (.hang s) => .hang s
-
-def addTo (base : List Css.Rule) (css : Option (List Char)) : Except Outcome (List Css.Rule) :=
-  match css with
-  | none => .ok base
-  | some t => match Css.doAddCss t with
-    | .ok rs => .ok (base ++ rs)
-    | .err => .error .cssErr
-    | .hang => .error (.hang "css parser")
-
-def docRulesOf (useDoc : Bool) (domDepth : Nat) (dom : Node) : Except Outcome (List Css.Rule) :=
-  if !useDoc then .ok [] else
-  (styleTexts domDepth dom).foldl (fun acc t => match acc with
-    | .error o => .error o
-    | .ok rs => match Css.doAddCss (t.map fun c => Char.ofNat c.cp) with
-      | .ok r => .ok (rs ++ r)
-      | .err => .ok rs
-      | .hang => .error (.hang "css parser (document)")) (.ok [])
-
-def buildTree (bc : BuildCfg) (dom : Node) : Except Outcome RNode :=
-  match build bc [] 0 dom with
-  | none => .error (.panic "computed_style")
-  | some none => .error (.panic "Fail: no render tree")
-  | some (some tree) =>
-    if !tableOk tree then .error (.panic "tableOk: a cell lies outside its table's columns") else .ok tree
-
-/-- the part of the pipeline before rendering: style sheets, DOM → render tree, the `tableOk` check -/
-def domTree (decorate : Bool) (useDoc : Bool) (agentCss userCss : Option (List Char)) (ci : CharInfo) (domDepth : Nat) (dom : Node) :
-    Except Outcome RNode :=
-  match addTo (if decorate then decorateRules else []) agentCss with
-  | .error o => .error o
-  | .ok agent =>
-  match addTo [] userCss with
-  | .error o => .error o
-  | .ok user =>
-  match docRulesOf useDoc domDepth dom with
-  | .error o => .error o
-  | .ok author => buildTree { sd := { agent := agent, user := user, author := author }, useDoc := useDoc, ci := ci } dom
 
 theorem renderDom_factor (cfg : Cfg) (d : Deco) (w : Nat) (useDoc : Bool) (agentCss userCss : Option (List Char))
     (ci : CharInfo) (depth : Nat) (dom : Node) :
@@ -100,4 +58,7 @@ theorem renderDom_factor (cfg : Cfg) (d : Deco) (w : Nat) (useDoc : Bool) (agent
             | false => rfl
             | true =>
               simp only [Bool.not_true, Bool.false_eq_true, if_false, treeOutcome]
+              cases renderTree cfg d w tree with
+              | ok ls => rfl
+              | error e => cases e <;> rfl
 end H2T
